@@ -247,8 +247,6 @@ def correspondence(ctx):
             # coordinate dtypes other than float64 and other spellings of the order list
             if li % scale(6, 2) == 0:
                 dt = DTYPES[1 + (li // scale(6, 2) + fi) % (len(DTYPES) - 1)]
-                if fam.endswith('_der') and dt.startswith('int'):
-                    dt = 'float32'      # integer coordinates in the *_der sweeps: handled under C09 (same allocation pattern)
                 form = NSFORMS[(li // scale(6, 2) + fi) % len(NSFORMS)]
                 if form == 'gen' and fam in NO_GENERATOR:
                     form = 'tuple'
@@ -377,6 +375,9 @@ def correspondence(ctx):
         if r.strip() != want.strip():
             ctx.disagree('model:broadcast', {'a': list(a), 'b': list(b)}, want, r)
 
+    # ---------------- 3b. call histories (dtype / shape / config.precision switches with the same orders)
+    histories(ctx, p, scale)
+
     # ---------------- 4. malformed: an empty order list is rejected by both
     for fam in ('jacobi', 'hermite_He', 'dickson1', 'cheby1', 'Qbfs', 'laguerre'):
         ctx.case('malformed:empty', {'family': fam}, nontrivial=False)
@@ -388,6 +389,66 @@ def correspondence(ctx):
             ok = True
         if not ok:
             ctx.disagree('malformed:empty', {'family': fam}, 'accepted an empty order list', 'model: none')
+
+
+
+# ------------------------------------------------------------------------------------------------
+# call histories: the answer of a *_seq call must not depend on earlier calls (dtype / shape / precision switches, same orders)
+# ------------------------------------------------------------------------------------------------
+HISTORY = [('float32', (5,)), ('float64', (5,)), ('float64', (3, 4)), ('float32', (3, 4)), ('float64', ()), ('prec32:float64', (5,)),
+           ('float64', (5,)), ('complex128', (5,)), ('float64', (2, 3, 4)), ('float32', (5,)), ('float64', (5,))]
+HISTORY_LISTS = [[0, 1, 2, 3], [2, 5], [0, 3, 4, 7], [1], [3, 6, 9]]
+
+
+def _hist_coords(base, dtype, shape):
+    n = int(np.prod(shape)) if shape else 1
+    v = np.resize(base, n).reshape(shape) if shape else np.asarray(base[0])
+    return np.asarray(v, dtype=complex if dtype == 'complex128' else dtype)
+
+
+def run_history(p, fam, k, ns, steps, base):
+    """execute the call history; -> (index of the first failing step, description) or None"""
+    from prysm.conf import config
+    old = 32 if config.precision == np.float32 else 64
+    try:
+        for i, (what, shape) in enumerate(steps):
+            dt = what.split(':')[-1]
+            config.precision = 32 if what.startswith('prec32') else 64
+            x = _hist_coords(base, dt, shape)
+            d = seq_vs_loop(p, fam, k, ns, x)
+            if d is None:
+                out = np.asarray(FAMS[fam][0](p, list(ns), k, x))
+                ref0 = np.asarray(FAMS[fam][1](p, ns[-1], k, x))
+                # (the float width is not compared: recurrence_abc's lru_cache hands back NumPy float64 scalars when it was first
+                # filled from a NumPy-typed parameter, e.g. by zernike_nm_seq, which makes the scalar jacobi promote float32 input)
+                if ref0.dtype.kind in 'fc' and out.dtype.kind not in 'fc' or (ref0.dtype.kind == 'c' and out.dtype.kind != 'c'):
+                    d = f'{fam}_seq returned dtype {out.dtype}, the single-order function {ref0.dtype} (x.dtype={x.dtype})'
+            if d:
+                return i, d
+    finally:
+        config.precision = old
+    return None
+
+
+def histories(ctx, p, scale):
+    rng = ctx.rng
+    for fi, (fam, (seq, one, plist, (lo, hi), drv, exact)) in enumerate(FAMS.items()):
+        for li, ns in enumerate(HISTORY_LISTS[:scale(3, 5)]):
+            if fam.startswith('Q'):
+                ns = [n for n in ns if n <= 25]
+            k = plist[(li + fi) % len(plist)]
+            base = dyadic(rng, lo, hi, (24,))
+            rot = (li + fi) % len(HISTORY)
+            steps = HISTORY[rot:] + HISTORY[:rot] if li else list(HISTORY)
+            case = {'family': fam, 'params': list(k), 'ns': list(ns), 'history': [[w, list(sh)] for w, sh in steps], 'base': base.tolist()}
+            ctx.case(f'history:{fam}', case, nontrivial=True, tag='dtype/shape/precision switches')
+            ctx.evaluations += len(steps) - 1
+            r = run_history(p, fam, k, ns, steps, base)
+            if r:
+                i, d = r
+                case = {**case, 'history': case['history'][:i + 1]}
+                ctx.pred_fail(f'history:{fam}', case, f'step {i + 1} of the call history ({steps[i][0]} coordinates of shape {steps[i][1]} after '
+                              f'{[w for w, _ in steps[:i]]}): {d}')
 
 
 def pairs_vs_loop(p, kind, prs, a, b, norm=True, tol=1e-10):
@@ -463,7 +524,7 @@ def _det_coords(shape, lo, hi, dtype='float64'):
         lo_i, hi_i = int(math.ceil(lo)), int(math.floor(hi))
         v = np.array([lo_i + (3 * i + 1) % (hi_i - lo_i + 1) for i in range(n)], dtype=dtype)
         return v.reshape(shape) if shape else v[0].reshape(())
-    v = lo + (hi - lo) * (np.arange(1, n + 1) / (n + 1))
+    v = lo + (hi - lo) * ((np.arange(1, n + 1) - 0.37) / (n + 0.29))      # generic points: never 0, +-1 or symmetric pairs
     v = np.round(v * 64) / 64
     return np.asarray(v.reshape(shape) if shape else v[0], dtype=dtype)
 
@@ -492,8 +553,6 @@ def search(ctx, hints):
                     return {'item': f'seq:{fam}', 'input': {'family': fam, 'params': list(plist[0]), 'ns': ns, 'shape': list(s)}, 'detail': d}
         for fam, (seq, one, plist, (lo, hi), drv, exact) in FAMS.items():
             for dt in ('int64', 'float32', 'complex128'):
-                if fam.endswith('_der') and dt == 'int64':
-                    continue
                 for form in ('tuple', 'ndarray', 'gen'):
                     if form == 'gen' and fam in NO_GENERATOR:
                         continue
@@ -502,6 +561,16 @@ def search(ctx, hints):
                     if d:
                         return {'item': f'seq:{fam}', 'input': {'family': fam, 'params': list(plist[0]), 'ns': ns, 'shape': [3],
                                                                 'dtype': dt, 'ns_form': form}, 'detail': d}
+    for fam, (seq, one, plist, (lo, hi), drv, exact) in FAMS.items():
+        base = _det_coords((24,), lo, hi)
+        for ns in ([0, 1, 2], [2, 3], [1]):
+            for steps in ([('float32', (3,)), ('float64', (3,))], [('float64', (3,)), ('float32', (3,)), ('float64', (3,))],
+                          [('float64', (3,)), ('float64', (2, 2)), ('float64', ())], [('prec32:float64', (3,)), ('float64', (3,))]):
+                r = run_history(p, fam, plist[0], ns, steps, base)
+                if r:
+                    return {'item': f'history:{fam}', 'input': {'family': fam, 'params': list(plist[0]), 'ns': ns, 'shape': [],
+                                                               'history': [[w, list(sh)] for w, sh in steps[:r[0] + 1]], 'base': base.tolist()},
+                            'detail': f'step {r[0] + 1} of the call history: {r[1]}'}
     for prs in ([(0, 0)], [(1, 1)], [(0, 1)], [(1, 0)], [(2, 0), (1, 1)], [(1, 1), (1, -1)], [(1, -1), (1, 1)], [(2, 2), (2, -2)],
                 [(1, 1), (1, 1)], [(2, 2), (1, -1), (2, 2)], [(3, 1), (0, 0), (2, -2)], [(1, 1), (3, 1), (3, -1), (1, -1)],
                 [(4, 1), (4, -1), (5, 1), (2, -1)], [(2, 2), (4, 2), (4, -2), (2, -2), (4, 2)]):
@@ -524,6 +593,11 @@ def replay(inp):
     c = inp['input']
     print('replaying', inp['item'], c)
     fam = c['family']
+    if 'history' in c:
+        steps = [(w, tuple(sh)) for w, sh in c['history']]
+        r = run_history(p, fam, tuple(c.get('params', FAMS[fam][2][0])), c['ns'], steps, np.asarray(c['base'], dtype=float))
+        print(f'step {r[0] + 1}: {r[1]}' if r else 'every call of the history equals the single-order function')
+        return bool(r)
     shp = tuple(c['shape'])
     if 'pairs' in c:
         kind = fam
